@@ -363,6 +363,28 @@ def run(case, ctx):
                             '%r dedup=%s: incr=%r incr_uniq=%r, greedy %r'
                             % (k, dedup, c.incr, c.incr_uniq, refd[k]))
                 break
+    if len(rexes) >= 2 and n_uniq % 3 == 0 and not out.violations:
+        # a history: the result is changed through its documented remove()
+        # (the last expression goes) and the figures are asked for again:
+        # they describe the expressions now held
+        okr, r_ = call(x.results.remove, {len(rexes) - 1})
+        left = list(x.results.rex) if okr else None
+        if okr and len(left) == len(rexes) - 1:
+            out.label('history:figures-after-results.remove')
+            try:
+                crs2 = [re.compile(r, G.FLAGS) for r in left]
+            except re.error:
+                return out
+            for dedup in (False, True):
+                ok, cov = call(x.coverage, dedup)
+                want = [sum((1 if dedup else f) for (s, f) in zip(strings,
+                                                                  freqs)
+                            if c.match(s)) for c in crs2]
+                if ok and list(cov) != want:
+                    out.violate('coverage', 'after-remove:dedup=%s' % dedup,
+                                'after results.remove(): coverage(%s)=%r, '
+                                'true counts %r for %r' % (dedup, cov, want,
+                                                           left))
     return out
 
 
